@@ -85,7 +85,7 @@ class Knobs:
         if self.ad_style:
             self.applied["length:ad-4-octets"] += 1
             return ("long", 4)
-        if "length" not in self.kinds:
+        if "length" not in self.kinds and "length-wide" not in self.kinds:
             return None
         r = self.pick(8)
         if r < 4:
@@ -96,6 +96,9 @@ class Knobs:
             k = 2
         elif r == 6:
             k = 4
+        elif "length-wide" in self.kinds:
+            # X.690 8.1.3.5 allows up to 126 length octets (leading zero octets included)
+            k = [3, 5, 7, 8, 9, 10, 12, 16, 17, 33, 64, 126][self.pick(12)]
         else:
             k = 3 + self.pick(6)
         self.applied[f"length:long-{k}"] += 1
